@@ -87,6 +87,9 @@ func (h *harness) aliasCase(r *rng, name string, nops int) {
 		switch r.pick(40, 10, 20, 8, 8, 6, 4, 4) {
 		case 0:
 			k, v := key(), patternBytes(r.intn(200), byte(r.next()))
+			if r.chance(15) {
+				v = []byte{}
+			}
 			kk, vv := append([]byte(nil), k...), append([]byte(nil), v...)
 			if err := db.Put(kk, vv); err != nil {
 				h.emit("aliasfail case=%s put: %s", name, errStr(err))
@@ -145,9 +148,50 @@ func (h *harness) aliasCase(r *rng, name string, nops int) {
 			k := key()
 			buf := make([]byte, 3, 64)
 			copy(buf, "pre")
+			switch r.intn(4) {
+			case 0:
+				buf = nil
+			case 1:
+				buf = []byte{}
+			}
+			nilBuf := buf == nil
 			v, err := db.GetAppend(k, buf)
 			if err == nil && v != nil {
 				keep = append(keep, kept{"GetAppend", v, append([]byte(nil), v...)})
+			}
+			if err == nil && (v != nil || nilBuf) && r.chance(60) {
+				// the caller owns the result INCLUDING its capacity: appending to it (or passing it on as
+				// the next buffer) must neither fault nor reach the database
+				want, have := model[string(k)]
+				func() {
+					defer func() {
+						if e := recover(); e != nil {
+							h.emit("aliasfail case=%s fs=%s appending to the slice returned by GetAppend faults (its capacity is not the caller's memory): %v", name, fsName, e)
+							nfail++
+						}
+					}()
+					w := append(v[:len(v):cap(v)], 0xA5, 0x5A, 0xA5)
+					_ = w
+					if cap(v) > len(v) {
+						full := v[:cap(v)]
+						for j := len(v); j < len(full); j++ {
+							full[j] ^= 0xFF
+						}
+					}
+				}()
+				if nfail == 0 {
+					got, _ := db.Get(k)
+					if have && !bytes.Equal(got, want) {
+						h.emit("aliasfail case=%s fs=%s writing into the capacity of the slice returned by GetAppend changed the stored value", name, fsName)
+						nfail++
+					}
+					for kk, wv := range model {
+						if g2, _ := db.Get([]byte(kk)); !bytes.Equal(g2, wv) && nfail == 0 {
+							h.emit("aliasfail case=%s fs=%s writing into the capacity of the slice returned by GetAppend changed the value of another key", name, fsName)
+							nfail++
+						}
+					}
+				}
 			}
 		case 4:
 			it := db.Items()
